@@ -23,6 +23,81 @@ use serde::{
 };
 use std::{borrow::Borrow, hash::Hash};
 
+/// Verification hooks: cooperative yield points for a deterministic
+/// simulator. Compiled only with the `verif` feature; the shipped build
+/// contains none of this.
+#[cfg(feature = "verif")]
+pub mod verif {
+    use std::sync::OnceLock;
+
+    static HOOK: OnceLock<fn(&'static str)> = OnceLock::new();
+
+    /// Installs the process-wide yield hook (first call wins).
+    pub fn set_hook(f: fn(&'static str)) {
+        let _ = HOOK.set(f);
+    }
+
+    /// A yield point. Returns immediately unless a hook is installed (the
+    /// hook itself returns immediately on threads that are not simulated).
+    #[inline]
+    pub fn point(tag: &'static str) {
+        if let Some(f) = HOOK.get() {
+            f(tag)
+        }
+    }
+}
+
+/// Marks a yield point for the deterministic simulator (no-op without the
+/// `verif` feature).
+#[cfg(feature = "verif")]
+#[macro_export]
+macro_rules! verif_point {
+    ($tag:expr) => {
+        $crate::verif::point($tag)
+    };
+}
+#[cfg(not(feature = "verif"))]
+#[macro_export]
+macro_rules! verif_point {
+    ($tag:expr) => {};
+}
+
+/// Placed immediately before a blocking `parking_lot::RwLock::read()`: under
+/// the simulator the thread yields (instead of parking) until no writer
+/// holds the lock, so the acquisition that follows cannot block. No-op
+/// without the `verif` feature.
+#[cfg(feature = "verif")]
+#[macro_export]
+macro_rules! verif_await_read {
+    ($lock:expr) => {
+        while $lock.is_locked_exclusive() {
+            $crate::verif::point("gate-wait");
+        }
+    };
+}
+#[cfg(not(feature = "verif"))]
+#[macro_export]
+macro_rules! verif_await_read {
+    ($lock:expr) => {};
+}
+
+/// Like [`verif_await_read!`] for a blocking `write()`: yields until the lock
+/// is free.
+#[cfg(feature = "verif")]
+#[macro_export]
+macro_rules! verif_await_write {
+    ($lock:expr) => {
+        while $lock.is_locked() {
+            $crate::verif::point("gate-wait");
+        }
+    };
+}
+#[cfg(not(feature = "verif"))]
+#[macro_export]
+macro_rules! verif_await_write {
+    ($lock:expr) => {};
+}
+
 /// A trait for functional-style method chaining.
 ///
 /// Allows any value to be passed through a function, enabling
